@@ -76,6 +76,9 @@ CASES = [
   ("N24 eq128_s4: pcmpeqq -> pcmpeqd (the pshufd then drops dword 1)", False, S, sub1("_mm_cmpeq_epi64(x, y)", "_mm_cmpeq_epi32(x, y)")),
   ("N25 soft.rs x2 gains a derived PartialEq (loud: not modelled)", False, F, sub1("#[derive(Copy, Clone, Default)]", "#[derive(Copy, Clone, Default, PartialEq)]")),
   ("N26 an intrinsic without a model (loud)", False, S, sub1("_mm_cmpeq_epi32(x, y)", "_mm_cmpgt_epi32(x, y)")),
+  ("N27 mod.rs Avx2Machine: `type u32x4x2` is the SSE pair (that type HAS a `==`; the table says none)", False, M, sub1("type u32x4x2 = sse2::avx2::u32x4x2_avx2<NI>;", "type u32x4x2 = sse2::u32x4x2_sse2<YesS3, YesS4, NI>;")),
+  ("N28 mod.rs SseMachine: `type u64x4` is `u128x2_sse2` (no `==`)", False, M, sub1("type u64x4 = sse2::u64x4_sse2<S3, S4, NI>;", "type u64x4 = sse2::u128x2_sse2<S3, S4, NI>;")),
+  ("N29 generic.rs GenericMachine: `type u128x1` is `u64x2_generic`", False, G, sub1("type u128x1 = u128x1_generic;", "type u128x1 = u64x2_generic;")),
   # harmless rewrites: byte-identical output
   ("P01 eq128_s2: locals renamed", True, S, sub1(S2, "    let m = _mm_cmpeq_epi32(x, y);\n    let hi = _mm_cvtsi128_si64(_mm_srli_si128(m, 8));\n    let lo = _mm_cvtsi128_si64(m);\n    (hi & lo) == -1\n")),
   ("P02 eq128_s2: extra temporaries", True, S, sub1(S2, "    let q = _mm_cmpeq_epi32(x, y);\n    let s = _mm_srli_si128(q, 8);\n    let p = _mm_cvtsi128_si64(s);\n    let q = _mm_cvtsi128_si64(q);\n    let both = p & q;\n    let r = both == -1;\n    r\n")),
